@@ -1,7 +1,20 @@
 """C09 - time-ordered collections are stable priority queues under any history.
 
 E2 over the real TaskQueue (and OscScore as a consumer) against a plain list
-of (prio, seq, task)."""
+of (prio, seq, task); E1 families for the other consumers against the list
+models of mc/oracles/timeq_ref.py: clock tasks (NRT scheduler: sched,
+sched_abs, tempo/beats change, main.reset; the real-time clocks' own queues
+under virtual time, default schedule: sched, sched_abs, clear), parallel
+pattern streams (Ppar), exit actions (main._atexitq drained by
+main._shutdown), and a fill-disturb-drain family with 5-6 live entries.
+
+Don't-cares: the unit of OscScore.duration; the time a score entry gets for a
+"no time" (None) or negative bundle time (only its order is judged); NRT
+clock.clear() (documented no-op); the order between entries of different
+real-time clocks; what the app clock does with entries that are due in the
+same tick as the task re-scheduling them (model flags, never met by the
+enumerated programs); plain functions scheduled more than once (each sched()
+wraps them anew)."""
 
 from mc import core
 from mc.engines import histbfs
@@ -165,7 +178,7 @@ class TaskQueueSys:
         rank = {c: i for i, c in enumerate(counts)}
         return [[[e[0], rank[e[1]], 'X' if e[2] is removed else e[2]]
                  for e in q._queue], q._removed_counter,
-                sorted(q._entry_finder)]
+                sorted(q._entry_finder, key=repr)]
 
     def key(self):
         seqs = sorted(e[1] for e in self.ref.items)
@@ -182,8 +195,11 @@ class TaskQueueSys:
 
 class ScoreSys:
     """OscScore as a consumer: add bundles at times from a small menu (outside
-    routines times are absolute); duration must track the latest entry and the
-    finished list must be time ordered with FIFO ties."""
+    routines times are absolute; None and negative times mean "now" = 0.0);
+    duration must track the latest entry and the finished list - read through
+    the public route finish(tail) + .list as well - must be time ordered with
+    FIFO ties, the closing dummy command being the most recent entry of its
+    time."""
 
     def __init__(self, params):
         from sc3.base.main import main
@@ -191,28 +207,65 @@ class ScoreSys:
         main.reset()
         self.score = OscScore()
         self.times = params['times']
+        self.tails = params.get('tails', [])
         self.ref = RefQueue()
         self.ref.add(0.0, 'root')
         self.n = 0
         self.tie = False
+        self.finished = False
         self.last = None
 
     def ops(self):
-        return [['add', t] for t in self.times]
+        if self.finished:
+            return []
+        return [['add', t] for t in self.times] + \
+            [['finish', t] for t in self.tails]
+
+    @staticmethod
+    def _tag(t):
+        return {'root': '/g_new', 'tail': '/c_set'}.get(t, t)
 
     def apply(self, op):
         from sc3.base.clock import SystemClock
-        _, t = op
-        tag = f'/m{self.n}'
-        self.n += 1
-        if any(e[0] == t for e in self.ref.items):
-            self.tie = True
-        self.ref.add(float(t), tag)
         dis = []
-        try:
-            self.score.add([t, [tag, self.n]])
-        except Exception as e:
-            return [('score-add-raises', None, repr(e), '')]
+        if op[0] == 'finish':
+            tail = op[1]
+            if any(e[0] == tail for e in self.ref.items):
+                self.tie = True
+            self.ref.add(float(tail), 'tail')
+            self.finished = True
+            try:
+                self.score.finish(tail)
+                lst = [[b[0], b[1][0]] for b in self.score.list]
+            except Exception as e:
+                return [('score-finish-raises', None, repr(e), '')]
+            exp = [[p, self._tag(t)] for p, t in self.ref.listing()]
+            if lst != exp:
+                dis.append(('score-finished-order', exp, lst,
+                            'OscScore.finish(tail); .list'))
+        else:
+            _, t = op
+            tag = f'/m{self.n}'
+            self.n += 1
+            try:
+                self.score.add([t, [tag, self.n]])
+            except Exception as e:
+                return [('score-add-raises', None, repr(e), '')]
+            if t is None or t < 0:
+                # "no time" / a time before the start: which time the entry
+                # gets is not this property's business - the model takes the
+                # time the library gave it and judges the order only
+                at = [p for p, e in self.score._scoreq
+                      if e.bndl[1][0] == tag]
+                if len(at) != 1 or not isinstance(at[0], (int, float)) or \
+                        at[0] != at[0]:
+                    return [('score-entry-not-queued-once', 1, repr(at), '')]
+                at = float(at[0])
+            else:
+                at = float(t)
+            if any(e[0] == at for e in self.ref.items):
+                self.tie = True
+            self.ref.add(at, tag)
         # duration: compared up to the library's constant factor (DESIGN C09:
         # the unit of `duration` is a don't-care here).
         exp_latest = self.ref.peek(False)[0]
@@ -222,15 +275,14 @@ class ScoreSys:
             dis.append(('score-duration-not-latest', exp_latest, got_latest,
                         ''))
         lst = [[e.bndl[0], e.bndl[1][0]] for _, e in self.score._scoreq]
-        exp = [[p, '/g_new' if t == 'root' else t]
-               for p, t in self.ref.listing()]
+        exp = [[p, self._tag(t)] for p, t in self.ref.listing()]
         if lst != exp:
             dis.append(('score-order', exp, lst, ''))
         self.last = lst
         return dis
 
     def key(self):
-        return [self.ref.listing()]
+        return [self.ref.listing(), self.finished]
 
     def nontrivial(self):
         return self.tie
@@ -384,13 +436,610 @@ def nrtsched_work(job):
     return acc.result()
 
 
+# ---------------------------------------------------------------------------
+# More clock-task families (NRT scheduler and the real-time clocks' own
+# queues under virtual time), against mc/oracles/timeq_ref.clockq_expected
+# ---------------------------------------------------------------------------
+
+R3 = [['yield', 1.0], ['yield', 1.0], ['yield', 1.0]]
+F3 = {'returns': [1.0, 1.0, 1.0, None], 'kind': 'awakeable'}
+
+
+def oneclock_programs():
+    """Everything on ONE clock C (so that the real-time clocks, which have
+    one queue each and no order between clocks, are decided too): f0 and r0
+    start at 0, a plain function g0 at 0.25 (period 0.5: it ties with the
+    controller and with re-scheduled tasks), a controller routine on C
+    re-schedules f0 / r0 with sched / sched_abs (absolute beats 2 and 2.5,
+    always in the future) or clears the clock."""
+    out = []
+    for C in ('s', 't2', 'a'):
+        ops = [['sched', C, d, t] for d in (0, 0.25, 1.0)
+               for t in ('f0', 'r0')]
+        if C != 'a':        # the app clock has no sched_abs
+            ops += [['sched_abs', C, b, t] for b in (2.0, 2.5)
+                    for t in ('f0', 'r0')]
+        ops += [['clear', C]]
+        # the controller re-schedules itself: the entry made by sched() is
+        # moved by the yield that follows (or awakens the finished routine,
+        # which shows nothing)
+        ops += [['sched', C, d, 'k'] for d in (0, 0.25, 1.0)]
+        for w1 in (0.5, 1.5):
+            for op1 in ops:
+                for op2 in [None] + ops:
+                    if op2 == op1:
+                        continue
+                    k = [['yield', w1], op1]
+                    if op2 is not None:
+                        k += [['yield', 0.25], op2]
+                    out.append({
+                        'clocks': {'s': NS_SPEC['s'], C: NS_SPEC[C]},
+                        # g0: a plain function (wrapped by the clock; it is
+                        # scheduled once and only re-schedules itself)
+                        'funcs': {'f0': F3,
+                                  'g0': {'returns': [0.5, 0.5, None],
+                                         'kind': 'func'}},
+                        'routines': {'k': k, 'r0': R3},
+                        'actors': {'main': [['sched', C, 0, 'f0'],
+                                            ['sched', C, 0, 'r0'],
+                                            ['sched', C, 0.25, 'g0'],
+                                            ['play', 'k', C, 0]]},
+                        'horizon': 12.0})
+    return out
+
+
+def tempo_programs():
+    """NRT: three tasks pending on TempoClock(2) (f0, r0 re-schedule
+    themselves, g0 is awakened once), with ties in beats and every heap
+    layout that three insertions produce; a controller on SystemClock changes
+    the clock's tempo or beats (pending entries move in seconds) and may
+    re-schedule one task right after."""
+    out = []
+    for order in (('f0', 'r0', 'g0'), ('g0', 'r0', 'f0')):
+        for bf in (0.5, 1, 2):
+            for br in (0.5, 1, 2):
+                for bg in (0.5, 1, 2):
+                    at = {'f0': bf, 'r0': br, 'g0': bg}
+                    for w in (0.125, 0.375):
+                        for ch in (['tempo', 't2', 1.0], ['tempo', 't2', 4.0],
+                                   ['etempo', 't2', 1.0],
+                                   ['beats', 't2', 0.0],
+                                   ['beats', 't2', 0.25]):
+                            for re in [None, 'again'] + [
+                                    ['sched', 't2', d, t] for d in (0, 0.5)
+                                    for t in ('f0', 'r0')]:
+                                # 'again': the task scheduled first is
+                                # scheduled once more at the same beat before
+                                # the change (it is now the most recent one)
+                                again = [['sched', 't2', at[order[0]],
+                                          order[0]]] if re == 'again' else []
+                                if re == 'again':
+                                    re = None
+                                k = [['yield', w], ch] + ([re] if re else [])
+                                out.append({
+                                    'clocks': {'s': NS_SPEC['s'],
+                                               't2': NS_SPEC['t2']},
+                                    'funcs': {'f0': F3, 'g0': {
+                                        'returns': [None],
+                                        'kind': 'awakeable'}},
+                                    'routines': {'k': k, 'r0': R3},
+                                    'actors': {'main': [
+                                        ['sched', 't2', at[t], t]
+                                        for t in order] + again +
+                                        [['play', 'k', 's', 0]]},
+                                    'horizon': 12.0})
+    return out
+
+
+def reset_programs():
+    """NRT: main.reset() while tasks are pending (one of them possibly moved
+    before, so that the queue holds a stale entry), then new schedulings."""
+    out = []
+    for C in ('s', 't2', 'a'):
+        post = [['sched', C, d, t] for d in (0, 0.5) for t in ('f0', 'r0')]
+        for pre in ([], [['sched', C, 1.0, 'f0']], [['sched', C, 0, 'r0']]):
+            for p1 in [None] + post:
+                for p2 in [None] + post:
+                    if p1 is None and p2 is not None:
+                        continue
+                    if p1 is not None and p1 == p2:
+                        continue
+                    ops = [['sched', C, 0, 'f0'], ['sched', C, 0.5, 'r0']] + \
+                        pre + [['mainreset']] + \
+                        [o for o in (p1, p2) if o is not None]
+                    out.append({
+                        'clocks': {'s': NS_SPEC['s'], C: NS_SPEC[C]},
+                        'funcs': {'f0': F3}, 'routines': {'r0': R3},
+                        'actors': {'main': ops}, 'horizon': 12.0})
+    return out
+
+
+def _has(prog, name):
+    for body in list(prog['routines'].values()) + [prog['actors']['main']]:
+        if any(st[0] == name for st in body):
+            return True
+    return False
+
+
+def clock_cases():
+    """All cases of the additional clock-task families: [family, mode, prog]."""
+    out = []
+    for prog in oneclock_programs():
+        if not _has(prog, 'clear'):
+            # in NRT mode clear() is documented to do nothing: not decided
+            out.append(['oneclock', 'nrt', prog])
+        out.append(['oneclock', 'rt', prog])
+    for prog in tempo_programs():
+        out.append(['tempo', 'nrt', prog])
+    for prog in reset_programs():
+        out.append(['reset', 'nrt', prog])
+    return out
+
+
+def _run_nrt9(prog):
+    """rtprog.run_nrt plus two operations it does not have."""
+    from mc import rtprog
+    from sc3.base.main import main
+
+    class Run9(rtprog.Run):
+        def do(self, st, who, clock=None):
+            if st[0] == 'sched_abs' and st[3] in self.routines:
+                self.clocks[st[1]].sched_abs(st[2], self.routines[st[3]])
+            elif st[0] == 'mainreset':
+                main.reset()
+            elif st[0] == 'etempo':
+                self.clocks[st[1]].etempo(st[2])
+            else:
+                super().do(st, who, clock)
+    main.reset()
+    run = Run9(prog, 'nrt')
+    run.setup()
+    for op in prog['actors']['main']:
+        run.do(op, 'main')
+    main.process(0.0)
+    return run.trace
+
+
+def _run_rt9(prog):
+    from mc import rtprog
+    # 'sched_abs' of a routine: rtprog looks the target up in funcs only
+    orig = rtprog.Run.do
+
+    def do(self, st, who, clock=None):
+        if st[0] == 'sched_abs' and st[3] in self.routines:
+            self.clocks[st[1]].sched_abs(st[2], self.routines[st[3]])
+        else:
+            orig(self, st, who, clock)
+    rtprog.Run.do = do
+    try:
+        _, _, res = rtprog.run_rt(prog, [])
+    finally:
+        rtprog.Run.do = orig
+    trace = res['trace']
+    if res['status'] != 'ok' or res['finish_problems']:
+        # deadlock / livelock / a clock that cannot be stopped: observable
+        trace = trace + [['raises', 'run', None,
+                          res['status'] if res['status'] != 'ok'
+                          else 'finish-problem']]
+    return trace
+
+
+def _awakenings(trace):
+    got = []
+    for e in trace:
+        if e[0] in ('wake', 'res'):
+            got.append([e[1], e[4], e[7]])
+        elif e[0] == 'raises':
+            got.append(['raises', e[1], str(e[3])])
+    return got
+
+
+def _classify(prefix, exp, got):
+    n = 0
+    while n < min(len(got), len(exp)) and got[n] == exp[n]:
+        n += 1
+    g = got[n] if n < len(got) else None
+    e = exp[n] if n < len(exp) else None
+    if g is not None and g[0] == 'raises':
+        kind = 'raises'
+    elif g is not None and e is not None and g[0] == e[0] and g[2] == e[2]:
+        kind = 'time'
+    elif g is not None and sum(1 for x in got if x[0] == g[0]) > \
+            sum(1 for x in exp if x[0] == g[0]):
+        kind = 'awakened-more-than-scheduled'
+    elif e is not None and sum(1 for x in got if x[0] == e[0]) < \
+            sum(1 for x in exp if x[0] == e[0]):
+        kind = 'lost'
+    else:
+        kind = 'order'
+    return (f'{prefix}-clock-task-{kind}', exp, got,
+            f'first difference at entry {n}: expected {e}, observed {g} '
+            f'([task, seconds, clock])')
+
+
+def clock_check(family, mode, prog):
+    """-> (disagreements, observed, decided: 0 no / 1 yes, non-trivial /
+    2 yes, trivial)"""
+    from mc.oracles import timeq_ref
+    exp, flags, stats = timeq_ref.clockq_expected(prog, mode)
+    if flags:
+        return [], sorted(flags), False
+    got = _awakenings(_run_rt9(prog) if mode == 'rt' else _run_nrt9(prog))
+    dis = []
+    if got != exp:
+        dis.append(_classify(f'{mode}-{family}', exp, got))
+    # non-trivial: a pending entry was moved / removed or a tie occurred
+    return dis, got, (1 if any(stats.values()) else 2)
+
+
+def clock_work(job):
+    from mc.engines import progenum
+    acc = progenum.Acc(max_samples=2)
+    n = -1
+    for family, mode, prog in clock_cases():
+        if mode != job['mode']:
+            continue
+        n += 1
+        if n % job['of'] != job['shard']:
+            continue
+        if job.get('slice_of') and (n // job['of']) % job['slice_of'] != \
+                job['slice_ix']:
+            continue
+        dis, got, decided = clock_check(family, mode, prog)
+        case = {'part': 'clock', 'family': family, 'mode': mode,
+                'prog': prog}
+        for kind, exp, obs, detail in dis:
+            acc.violation(kind, case, exp, obs, detail,
+                          size=len(core.canon(prog)))
+        if decided:
+            acc.case(case, decided == 1, got, steps=len(got))
+        else:
+            acc.count('undecided:' + ','.join(got))
+    return acc.result()
+
+
+# ---------------------------------------------------------------------------
+# Parallel pattern streams: Ppar
+# ---------------------------------------------------------------------------
+
+PPAR_DURS = [0, 0.5, 1.0]
+
+
+def _durlists(maxlen):
+    import itertools
+    out = []
+    for n in range(maxlen + 1):
+        out += [list(c) for c in itertools.product(PPAR_DURS, repeat=n)]
+    return out
+
+
+def ppar_cases(tier):
+    """['par', [children]] with children ['seq', tag, durs] or a nested par;
+    durations from {0, 0.5, 1} (0: the child speaks again at the same time,
+    after the others that are due)."""
+    out = []
+    l3, l2 = _durlists(3), _durlists(2)
+    for a in l3:                                    # 2 children, <= 3 events
+        for b in l3:
+            out.append(['par', [['seq', 0, a], ['seq', 1, b]]])
+    three = l3 if tier == 'thorough' else l2
+    for a in three:                                 # 3 children
+        for b in three:
+            for c in three:
+                out.append(['par', [['seq', 0, a], ['seq', 1, b],
+                                    ['seq', 2, c]]])
+    for a in l3:            # the time step given by the 'delta' key
+        for b in l3:
+            out.append(['par', [['seq', 0, a, 'delta'],
+                                ['seq', 1, b, 'delta']]])
+    for a in l2:                                    # nested
+        for b in l2:
+            for c in l2:
+                out.append(['par', [['par', [['seq', 0, a], ['seq', 1, b]]],
+                                    ['seq', 2, c]]])
+                out.append(['par', [['seq', 2, c],
+                                    ['par', [['seq', 0, a], ['seq', 1, b]]]]])
+    return out
+
+
+def _ppar_build(node):
+    from sc3.seq.patterns.eventpatterns import Pbind, Ppar
+    from sc3.seq.patterns.listpatterns import Pseq
+    if node[0] == 'seq':
+        key = node[3] if len(node) > 3 else 'dur'
+        if not node[2]:         # a child that ends at once
+            return Pbind({'dur': Pseq([1.0], 0), 'tag': node[1]})
+        if key == 'delta':      # an explicit delta overrides dur (2.0 here)
+            return Pbind({'dur': 2.0, 'delta': Pseq(list(node[2])),
+                          'tag': node[1]})
+        return Pbind({'dur': Pseq(list(node[2])), 'tag': node[1]})
+    return Ppar(*[_ppar_build(c) for c in node[1]])
+
+
+def ppar_check(node):
+    from mc.oracles import timeq_ref
+    from sc3.base.stream import stream, StopStream
+    from sc3.seq.event import event
+    exp = timeq_ref.ppar_expected(node)
+    got = []
+    now = 0.0
+    try:
+        s = stream(_ppar_build(node))
+        for _ in range(200):
+            try:
+                e = s.next(event())
+            except StopStream:
+                break
+            if e.get('tag') is not None:
+                got.append([e['tag'], now])
+            now += e['delta']
+        else:
+            got.append(['no-end', now])
+    except Exception as e:
+        got.append(['raises', type(e).__name__])
+    dis = []
+    if got != exp:
+        n = 0
+        while n < min(len(got), len(exp)) and got[n] == exp[n]:
+            n += 1
+        g = got[n] if n < len(got) else None
+        e = exp[n] if n < len(exp) else None
+        if got[-1][0] == 'raises':
+            kind = 'ppar-raises'
+        elif sorted(map(core.canon, got)) == sorted(map(core.canon, exp)):
+            kind = 'ppar-order-among-equal-times'
+        elif sorted((x[0] for x in got), key=repr) != \
+                sorted((x[0] for x in exp), key=repr):
+            kind = 'ppar-event-lost-or-repeated'
+        else:
+            kind = 'ppar-time'
+        dis.append((kind, exp, got, f'first difference at entry {n}: '
+                    f'expected {e}, observed {g} ([child tag, time])'))
+    return dis, got
+
+
+def _ppar_nontrivial(exp):
+    times = [t for _, t in exp]
+    return len(set(times)) < len(times)
+
+
+def ppar_work(job):
+    from mc.engines import progenum
+    from mc.oracles import timeq_ref
+    acc = progenum.Acc(max_samples=2)
+    for i, node in enumerate(ppar_cases(job['tier'])):
+        if i % job['of'] != job['shard']:
+            continue
+        dis, got = ppar_check(node)
+        case = {'part': 'ppar', 'node': node}
+        for kind, exp, obs, detail in dis:
+            acc.violation(kind, case, exp, obs, detail)
+        acc.case(case, _ppar_nontrivial(timeq_ref.ppar_expected(node)), got,
+                 steps=len(got))
+    return acc.result()
+
+
+# ---------------------------------------------------------------------------
+# Exit actions: main._atexitq drained by main._shutdown()
+# ---------------------------------------------------------------------------
+
+EXIT_PRIOS = ['CUSTOM', 'CLOCKS', 801]     # enum members and a plain int
+EXIT_EFFECTS = [{}, {'0': ['remove', 1]}, {'1': ['remove', 0]},
+                {'0': ['add', 'CLOCKS', 2]}, {'2': ['add', 'CUSTOM', 0]}]
+
+
+def exit_cases(maxlen):
+    """Histories of add(prio, action) / remove(action) on the library's exit
+    queue over three actions (0, 1: bound methods - a new but equal method
+    object at every mention, as the library's own `q.remove(self._stop)`; 2: a
+    plain function), then shutdown; an action may itself remove / add one."""
+    import itertools
+    menu = [['add', p, k] for p in EXIT_PRIOS for k in (0, 1, 2)] + \
+        [['remove', k] for k in (0, 1, 2)]
+    out = []
+    for n in range(1, maxlen + 1):
+        for h in itertools.product(menu, repeat=n):
+            if h[0][0] == 'remove':
+                continue        # same as the shorter history
+            for eff in EXIT_EFFECTS:
+                out.append({'history': [list(o) for o in h], 'effects': eff})
+    return out
+
+
+def exit_check(case):
+    from mc.oracles import timeq_ref
+    from sc3.base.main import main
+    q = main._atexitq
+    prio = main._atexitprio
+    pre = list(q)
+    log = []
+
+    def pval(p):
+        return getattr(prio, p) if isinstance(p, str) else p
+
+    def num(p):
+        return int(pval(p))
+
+    class Unit:
+        def __init__(self, k):
+            self.k = k
+
+        def stop(self):
+            ran(self.k)
+
+    units = {0: Unit(0), 1: Unit(1)}
+
+    def f2():
+        ran(2)
+
+    def action(k):
+        return f2 if k == 2 else units[k].stop      # new method object
+
+    def ran(k):
+        log.append(k)
+        eff = case['effects'].get(str(k))
+        if eff:
+            if eff[0] == 'remove':
+                q.remove(action(eff[1]))
+            else:
+                q.add(pval(eff[1]), action(eff[2]))
+
+    hist = [[o[0], num(o[1]), o[2]] if o[0] == 'add' else o
+            for o in case['history']]
+    eff = {k: ([v[0], num(v[1]), v[2]] if v[0] == 'add' else v)
+           for k, v in case['effects'].items()}
+    exp = timeq_ref.exit_expected(hist, eff)
+    dis = []
+    try:
+        try:
+            for o in case['history']:
+                if o[0] == 'add':
+                    q.add(pval(o[1]), action(o[2]))
+                else:
+                    q.remove(action(o[1]))
+            listed = [k for k in (getattr(getattr(t, '__self__', None), 'k',
+                                          2 if t is f2 else None)
+                                  for _, t in q) if k is not None]
+            main._shutdown()
+            left = [[int(p), getattr(t, '__qualname__', type(t).__name__)]
+                    for p, t in q]
+            emp = q.empty()
+        except Exception as e:
+            dis.append(('exit-raises', exp, type(e).__name__, ''))
+            return dis, log
+    finally:
+        q.clear()
+        for p, t in pre:
+            q.add(p, t)
+    model = timeq_ref.ListQueue()
+    for o in hist:
+        (model.add(o[1], o[2]) if o[0] == 'add' else model.remove(o[1]))
+    want_listed = [e[2] for e in model.sorted()]
+    if listed != want_listed:
+        dis.append(('exit-queue-listing', want_listed, listed,
+                    'actions queued before shutdown, in order'))
+    if log != exp:
+        if sorted(log) == sorted(exp):
+            kind = 'exit-actions-order'
+        elif any(log.count(k) > exp.count(k) for k in set(log)):
+            kind = 'exit-action-ran-more-than-queued'
+        else:
+            kind = 'exit-action-not-run'
+        dis.append((kind, exp, log, 'actions run by main._shutdown()'))
+    if left or not emp:
+        dis.append(('exit-queue-not-empty-after-shutdown', [[], True],
+                    [left, emp], ''))
+    return dis, log
+
+
+def _exit_nontrivial(case):
+    h = case['history']
+    adds = [o for o in h if o[0] == 'add']
+    return (len({o[2] for o in adds}) < len(adds) or
+            any(o[0] == 'remove' for o in h) or
+            len({str(o[1]) for o in adds}) < len(adds) or
+            bool(case['effects']))
+
+
+def exit_work(job):
+    from mc.engines import progenum
+    acc = progenum.Acc(max_samples=2)
+    for i, case0 in enumerate(exit_cases(job['maxlen'])):
+        if i % job['of'] != job['shard']:
+            continue
+        dis, log = exit_check(case0)
+        case = dict(case0, part='exit')
+        for kind, exp, obs, detail in dis:
+            acc.violation(kind, case, exp, obs, detail)
+        acc.case(case, _exit_nontrivial(case0), log, steps=len(log))
+    return acc.result()
+
+
+# ---------------------------------------------------------------------------
+# TaskQueue with more live entries: fill, disturb once, drain
+# ---------------------------------------------------------------------------
+
+def drain_cases(tier):
+    """add n tasks (n = 5; thorough also 6) at priorities from a 3-value menu
+    (all 3^n assignments), then one of: nothing / remove X / re-add X at p,
+    then pop until empty - every query checked after every step."""
+    import itertools
+    out = []
+    menus = [[0, 1, 2], [-1, 0.5, INF]]
+    for n in ((5, 6) if tier == 'thorough' else (5,)):
+        tasks = ['a', 'b', 'c', 'd', 'e', 'f'][:n]
+        for mi, menu in enumerate(menus):
+            for ps in itertools.product(menu, repeat=n):
+                if n == 6 and mi == 1:
+                    continue
+                fill = [['add', p, t] for p, t in zip(ps, tasks)]
+                dist = [[]] + [[['remove', t]] for t in tasks] + \
+                    [[['add', p, t]] for t in tasks for p in menu]
+                for d in dist:
+                    out.append({'prios': menu, 'tasks': tasks,
+                                'history': fill + d + [['pop']] * (n + 1)})
+    return out
+
+
+def drain_check(case):
+    s = TaskQueueSys({'prios': case['prios'], 'tasks': case['tasks']})
+    dis = []
+    for op in case['history']:
+        dis += s.apply(op)
+        if dis:
+            break
+    return dis, s.last
+
+
+def drain_work(job):
+    from mc.engines import progenum
+    acc = progenum.Acc(max_samples=2)
+    for i, case0 in enumerate(drain_cases(job['tier'])):
+        if i % job['of'] != job['shard']:
+            continue
+        if job.get('slice_of') and (i // job['of']) % job['slice_of'] != \
+                job['slice_ix']:
+            continue
+        dis, last = drain_check(case0)
+        case = dict(case0, part='drain')
+        for kind, exp, obs, detail in dis:
+            acc.violation(kind.replace('taskq-', 'taskq-drain-'), case, exp,
+                          obs, detail)
+        ps = [o[1] for o in case0['history'] if o[0] == 'add']
+        acc.case(case, len(set(ps)) < len(ps), last,
+                 steps=len(case0['history']))
+    return acc.result()
+
+
+def REPLAY_MODE(v):
+    case = v['case']
+    if case.get('part') == 'clock':
+        return case['mode']
+    return 'nrt'
+
+
 def _hist_replay(job):
-    if job['case'].get('part') == 'nrtsched':
-        dis, got = nrtsched_check(job['case']['prog'])
+    case = job['case']
+    part = case.get('part')
+
+    def pack(dis, got):
         return {'violates': any(d[0] == job['kind'] for d in dis),
                 'observed': got,
                 'disagreements': [[d[0], repr(d[1])[:600], repr(d[2])[:600]]
                                   for d in dis]}
+    if part == 'nrtsched':
+        return pack(*nrtsched_check(case['prog']))
+    if part == 'clock':
+        dis, got, _ = clock_check(case['family'], case['mode'], case['prog'])
+        return pack(dis, got)
+    if part == 'ppar':
+        return pack(*ppar_check(case['node']))
+    if part == 'exit':
+        return pack(*exit_check(case))
+    if part == 'drain':
+        dis, got = drain_check(case)
+        return pack([(d[0].replace('taskq-', 'taskq-drain-'),) + tuple(d[1:])
+                     for d in dis], got)
     return histbfs.replay(job)
 
 
@@ -405,38 +1054,98 @@ def main(ctx):
                 'model. States are deduplicated on (model contents with '
                 'sequence ranks, heap layout with counter ranks, tombstone '
                 'count). Non-trivial = history contains a priority tie, a '
-                're-add of a present task or a removal. NRT clock tasks (E1): '
+                're-add of a present task or a removal. Priority alphabets '
+                '{0,1,2} and {-inf,-1,0.5} (falsy tasks "" and 0), +inf in '
+                'the fill-disturb-drain family (5-6 live entries). NRT clock '
+                'tasks (E1): '
                 'every controller program re-scheduling a function task and '
                 'a routine that are pending / already awakened, on SystemClock'
                 ', TempoClock(2) and AppClock; the sequence of (task, logical '
                 'seconds, clock) awakenings is compared with a list model of '
-                '(clock, task) schedulings.')
+                '(clock, task) schedulings; one-clock programs (sched, '
+                'sched_abs, clear) also on the real-time clocks under virtual '
+                'time; tempo/beats changes with tied pending entries; '
+                'main.reset() with pending entries. Ppar (E1): all small '
+                'trees of parallel children with durations {0,0.5,1}; exit '
+                'actions (E1): all add/remove histories on main._atexitq '
+                'followed by main._shutdown(); OscScore (E2) through '
+                'finish()/list. Non-trivial for those = a tie in time / a '
+                're-insertion / a removal occurs.')
     ctx.assumptions += [
         'reference model: insertion-ordered list of (prio, seq, task), '
         'written from the property statement',
         'queue only ever compares priorities and counters, so counters are '
-        'renormalised to ranks in the state key']
+        'renormalised to ranks in the state key',
+        'real-time clocks run under mc/seams virtual time with the default '
+        'schedule (timers on time, no preemption); interleavings are C08\'s '
+        'subject']
     from mc.engines import progenum
+    quick = ctx.tier == 'quick'
     jobs = [{'shard': i, 'of': 32} for i in range(32)]
-    if ctx.tier == 'quick':
+    if quick:
         for j in jobs:
             j.update(slice_of=4, slice_ix=core.pick_slice(ctx.seed, 4))
     progenum.run(ctx, MODNAME, 'nrtsched_work', jobs, mode='nrt',
                  bound='NRT clock tasks: controller with <=2 re-scheduling '
                        'calls (3 clocks x 3 deltas x 2 targets each) on tasks '
                        'that re-schedule themselves' +
-                       (' - 1/4 slice chosen by the seed' if ctx.tier ==
-                        'quick' else ''))
-    if ctx.tier == 'quick':
+                       (' - 1/4 slice chosen by the seed' if quick else ''))
+    # further consumers -----------------------------------------------------
+    sl = ' - 1/4 slice chosen by the seed' if quick else ''
+    for mode in ('nrt', 'rt'):
+        jobs = [{'shard': i, 'of': 16, 'mode': mode} for i in range(16)]
+        if quick:
+            for j in jobs:
+                j.update(slice_of=4, slice_ix=core.pick_slice(ctx.seed, 4))
+        progenum.run(ctx, MODNAME, 'clock_work', jobs, mode=mode,
+                     bound=f'clock tasks ({mode}): one-clock controller '
+                           'programs (sched / sched_abs / clear / controller '
+                           're-scheduling itself, plain function alongside)' +
+                           (', tempo/beats change with 3 pending entries, '
+                            'main.reset()' if mode == 'nrt' else
+                            ' on the real-time clocks, default schedule') + sl)
+    jobs = [{'shard': i, 'of': 32, 'tier': ctx.tier} for i in range(32)]
+    progenum.run(ctx, MODNAME, 'ppar_work', jobs, mode='nrt',
+                 bound='Ppar: 2 children x <=3 events, 3 children x <=' +
+                       ('2' if quick else '3') + ' events, nested pairs x <=2 '
+                       'events; durations {0,0.5,1} given by dur or by an '
+                       'explicit delta')
+    jobs = [{'shard': i, 'of': 32, 'maxlen': 3 if quick else 4}
+            for i in range(32)]
+    progenum.run(ctx, MODNAME, 'exit_work', jobs, mode='nrt',
+                 bound='exit actions: histories of <=' +
+                       ('3' if quick else '4') + ' add/remove over 3 actions x '
+                       '3 priorities x 5 action side effects, then shutdown')
+    jobs = [{'shard': i, 'of': 32, 'tier': ctx.tier} for i in range(32)]
+    if quick:
+        for j in jobs:
+            j.update(slice_of=2, slice_ix=core.pick_slice(ctx.seed, 2))
+    progenum.run(ctx, MODNAME, 'drain_work', jobs, mode='nrt',
+                 bound='TaskQueue fill(5' + ('' if quick else '-6') +
+                       ' tasks, 3 priorities)-disturb-drain' +
+                       (' - 1/2 slice chosen by the seed' if quick else ''))
+    if quick:
         histbfs.run(ctx, MODNAME, 'taskq',
                     {'prios': [0, 1, 2], 'tasks': ['a', 'b', 'c']}, depth=7)
+        histbfs.run(ctx, MODNAME, 'taskq',
+                    {'prios': [-INF, -1, 0.5], 'tasks': ['', 0, 'c']},
+                    depth=5)
         histbfs.run(ctx, MODNAME, 'score', {'times': [0.0, 0.5, 1.0]},
                     depth=5)
+        histbfs.run(ctx, MODNAME, 'score',
+                    {'times': [None, -0.5, 0.5, 1, 1.0], 'tails': [0.0, 0.5]},
+                    depth=4)
     else:
         histbfs.run(ctx, MODNAME, 'taskq',
                     {'prios': [0, 1, 2], 'tasks': ['a', 'b', 'c']}, depth=8)
         histbfs.run(ctx, MODNAME, 'taskq',
                     {'prios': [0, 1, INF], 'tasks': ['a', 'b', 'c', 'd']},
                     depth=6)
+        histbfs.run(ctx, MODNAME, 'taskq',
+                    {'prios': [-INF, -1, 0.5], 'tasks': ['', 0, 'c']},
+                    depth=7)
         histbfs.run(ctx, MODNAME, 'score', {'times': [0.0, 0.5, 1.0, 2.0]},
                     depth=6)
+        histbfs.run(ctx, MODNAME, 'score',
+                    {'times': [None, -0.5, 0.5, 1, 1.0, 2.0],
+                     'tails': [0.0, 0.5, 3.0]}, depth=5)
